@@ -34,6 +34,7 @@ type FuncSpec struct {
 	Name        string
 	ResultNames []string
 	Requires    []Clause
+	Axioms      []Clause // assumed at entry (instances of assumed contracts on dependencies); listed in the evidence
 	Ensures     []Clause
 	Modifies    []string
 	Loops       map[int]*LoopSpec
@@ -81,7 +82,7 @@ func (db *SpecDB) Lookup(name string) *FuncSpec {
 	return db.Funcs[name]
 }
 
-var clauseKW = regexp.MustCompile(`^(func|extern|define|requires|ensures|modifies|loop|props|safety|schema|trusted|effect|decreases|assume|allow-panic|inline|functional)\b`)
+var clauseKW = regexp.MustCompile(`^(func|extern|define|requires|ensures|modifies|loop|props|safety|schema|trusted|effect|decreases|assume|allow-panic|inline|functional|axiom)\b`)
 
 // LoadSpecs reads every given contract file.
 func LoadSpecs(files []string) (*SpecDB, error) {
@@ -224,6 +225,13 @@ func (db *SpecDB) loadFile(file string) error {
 				cur.Functional = rest
 			case "modifies":
 				cur.Modifies = append(cur.Modifies, splitList(rest)...)
+			case "axiom":
+				cl, err := parseClause(rest, cur.Props)
+				if err != nil {
+					return errf("axiom: %v", err)
+				}
+				cur.Axioms = append(cur.Axioms, cl)
+				db.Assumes = appendUnique(db.Assumes, "axiom "+cur.Name+": "+rest)
 			case "requires", "ensures":
 				cl, err := parseClause(rest, cur.Props)
 				if err != nil {
